@@ -138,32 +138,12 @@ def publish_paths(ctx):
         raise Inconclusive("ids harness produced no usable execution (large MPUBs %d, traces %d)" % (R["large_mpubs"], R["traces"]))
 
 
-def tlaps_proof(ctx):
-    """GuidProof.tla: the generator without bounds (any clock value at every call, any sequence mask, any number of
-    calls), proved with TLAPS: the high-water mark dominates everything issued, a successful call returns an id above
-    every id handed out before, a failing call changes nothing a caller sees.  A model-level fact: if the proof system
-    cannot be run or does not finish the check is inconclusive; the verdicts on the code come from the bindings below."""
-    import shutil
-    import subprocess
-    d = os.path.join(ctx.scratch, "tlaps")
-    os.makedirs(d, exist_ok=True)
-    shutil.copy(os.path.join(ctx.specdir, "proofs", "GuidProof.tla"), d)
-    try:
-        p = subprocess.run(["tlapm", "--threads", "8", "GuidProof.tla"], cwd=d, capture_output=True, text=True, timeout=900)
-    except (subprocess.TimeoutExpired, FileNotFoundError) as e:
-        raise Inconclusive("tlapm on GuidProof.tla: %s" % e)
-    out = p.stdout + p.stderr
-    m = re.search(r"All (\d+) obligations proved", out)
-    if not m:
-        raise Inconclusive("GuidProof.tla: not every obligation was proved:\n" + out[-2500:])
-    ctx.notes["tlaps_obligations_proved"] = int(m.group(1))
-    log("TLAPS GuidProof.tla: all %s obligations proved (unbounded clock walk, any sequence mask)" % m.group(1))
-
-
 def run(ctx):
     quick = ctx.quick
     # 0. without bounds: the inductive invariant of the generator, proved
-    tlaps_proof(ctx)
+    # (GuidProof.tla: any clock value at every call, any sequence mask, any number of calls: the high-water mark dominates
+    # everything issued, a successful call returns an id above every id handed out before, a failing call changes nothing)
+    ctx.tlaps("GuidProof")
     # 1. the design: exhaustive over clock walks (stand still, advance, step back) and sequence exhaustion
     ctx.model_check("Guid", "Guid_mc.cfg" if quick else "Guid_thorough.cfg", timeout=600)
     # 2. binding A: all NewGUID edges of the bounded model, replayed by state injection
